@@ -36,7 +36,8 @@ type hop struct {
 	location string // non-empty: a redirect to this (relative) URL
 	// faults
 	transErr  bool
-	bodyErr   int // read error after this many bytes (-1 none)
+	bodyErr   int   // read error after this many bytes (-1 none)
+	announce  int64 // Content-Length of a response to HEAD (no body follows)
 	chunks    []int
 	eofWith   bool // deliver (n>0, io.EOF) on the last chunk
 	delay     time.Duration
@@ -177,6 +178,9 @@ func (rt *xTransport) RoundTrip(req *http.Request) (*http.Response, error) {
 	b := &xBody{h: h}
 	x.bodies = append(x.bodies, b)
 	cl := int64(len(h.body))
+	if h.announce > 0 {
+		cl = h.announce
+	}
 	if h.clUnknown {
 		cl = -1
 	}
@@ -266,6 +270,14 @@ func genExchange(t *simrt.Tape, i int, redirects int) *exchange {
 			if len(h.body) > 0 {
 				h.bodyErr = len(h.body) - 1 // in the last byte: in the drained remainder when max-body is small
 			}
+		}
+		if x.target.Method == "HEAD" {
+			// as net/http answers a HEAD request: the length a GET would have is announced, no body follows
+			h.announce = int64(len(h.body))
+			if h.announce == 0 && t.Prob(1, 2) {
+				h.announce = int64(1 + t.Choose(5000))
+			}
+			h.body, h.bodyErr, h.clUnknown = nil, -1, false
 		}
 		x.hops = append(x.hops, h)
 	}
